@@ -112,7 +112,7 @@ fn ensure_constraints(ch: &mut Choices, prog: &mut Program, want: usize) {
 
 /// Inject ≥ 1 violation; returns the label of the injection class.
 pub fn inject(ch: &mut Choices, prog: &mut Program) -> String {
-    let class = ch.weighted(&[18, 8, 10, 15, 12, 10, 10, 8, 9]);
+    let class = ch.weighted(&[17, 7, 9, 14, 11, 9, 9, 8, 8, 8]);
     let e = ScalarSpec::gen_nonzero(ch);
     let neg = |s: &ScalarSpec| -> Option<ScalarSpec> {
         Some(match s {
@@ -224,6 +224,41 @@ pub fn inject(ch: &mut Choices, prog: &mut Program) -> String {
             Some(l) => format!("near-miss:{}", l.split(':').next().unwrap_or("")),
             None => "near-miss(n/a)".into(),
         },
+        // X − Y = 0 for two different variables that share an index or sit next to each other:
+        // holds only for an implementation that takes one for the other
+        9 => {
+            let shape = prog.shape();
+            if shape.n() == 0 {
+                prog.ops.push(Op::AllocMul { l: Sc::C(ScalarSpec::gen_nonzero(ch)), r: Sc::C(ScalarSpec::gen_nonzero(ch)) });
+            }
+            let n = prog.shape().n();
+            let m = prog.shape().m;
+            let i = ch.below(n);
+            let mut pairs = vec![(Var::L(i), Var::R(i)), (Var::L(i), Var::O(i)), (Var::R(i), Var::O(i))];
+            if i + 1 < n {
+                pairs.extend([(Var::L(i), Var::L(i + 1)), (Var::O(i), Var::L(i + 1)), (Var::R(i), Var::O(i + 1)), (Var::R(i), Var::R(i + 1))]);
+            }
+            if i < m {
+                pairs.extend([(Var::Com(i), Var::L(i)), (Var::Com(i), Var::O(i))]);
+            }
+            if m >= 2 {
+                let j = ch.below(m - 1);
+                pairs.push((Var::Com(j), Var::Com(j + 1)));
+            }
+            let (x, y) = pairs[ch.below(pairs.len())];
+            let c = ScalarSpec::gen_nonzero(ch);
+            let nc = neg(&c).unwrap_or(ScalarSpec::MinusOne);
+            let c = if neg(&c).is_some() { c } else { ScalarSpec::One };
+            let mut lc = vec![(x, Sc::C(c)), (y, Sc::C(nc))];
+            if ch.chance(100) {
+                lc.swap(0, 1);
+            }
+            // at the end of the last list, so that both variables exist
+            let ls = lists(prog);
+            let l = *ls.last().unwrap();
+            list_mut(prog, l).push(Op::Constrain { lc, err: None, base: Some(vec![]) });
+            "confusable-pair".into()
+        }
         // a gate error offset by a linear error of the same size
         _ => {
             if prog.shape().n() == 0 {
@@ -489,6 +524,32 @@ fn scale_case<G: CurveTag>(it: &ScaleItem, col: &mut Collector) -> Result<(), Fa
                 ops.extend(gates);
             }
         }
+        4 => {
+            // one constraint with `total` terms over a few variables of every kind; the term at
+            // `at` carries the violation (its coefficient is off by one against the constant)
+            ops.push(Op::Commit { v: ScalarSpec::Small(9), blind: ScalarSpec::Rand(5) });
+            ops.push(Op::AllocMul { l: Sc::C(ScalarSpec::Small(2)), r: Sc::C(ScalarSpec::Small(3)) });
+            ops.push(Op::AllocMul { l: Sc::C(ScalarSpec::Small(5)), r: Sc::C(ScalarSpec::Small(7)) });
+            let vars = [Var::Com(0), Var::L(0), Var::R(0), Var::O(0), Var::L(1), Var::R(1), Var::O(1), Var::One];
+            let lc: Vec<(Var, Sc)> = (0..it.total).map(|t| (vars[(t * 5 + t / 8) % vars.len()], Sc::C(ScalarSpec::Small(1 + (t % 11) as u64)))).collect();
+            let mut base = lc.clone();
+            base[it.at].1 = Sc::C(ScalarSpec::Small(2 + (it.at % 11) as u64));
+            ops.push(Op::Constrain { lc, err: None, base: Some(base) });
+        }
+        5 => {
+            // V0 − L0 = 0 (violated: 9 ≠ 2) buried at `at` among `total` constant terms that cancel:
+            // satisfied only for an implementation that confuses variables sharing an index
+            ops.push(Op::Commit { v: ScalarSpec::Small(9), blind: ScalarSpec::Rand(5) });
+            ops.push(Op::AllocMul { l: Sc::C(ScalarSpec::Small(2)), r: Sc::C(ScalarSpec::Small(3)) });
+            let mut lc: Vec<(Var, Sc)> = (0..it.total).map(|t| (Var::One, Sc::C(if t % 2 == 0 { ScalarSpec::Small(1 + (t % 5) as u64) } else { ScalarSpec::NegSmall(1 + ((t - 1) % 5) as u64) }))).collect();
+            if it.total % 2 == 1 {
+                lc.pop();
+            }
+            let at = it.at.min(lc.len());
+            lc.insert(at, (Var::Com(0), Sc::C(ScalarSpec::One)));
+            lc.insert(at + 1, (Var::L(0), Sc::C(ScalarSpec::MinusOne)));
+            ops.push(Op::Constrain { lc, err: None, base: Some(vec![]) });
+        }
         _ => {
             for j in 0..it.total {
                 ops.push(Op::Commit { v: ScalarSpec::Small(j as u64), blind: ScalarSpec::Small(1 + j as u64) });
@@ -504,14 +565,14 @@ fn scale_case<G: CurveTag>(it: &ScaleItem, col: &mut Collector) -> Result<(), Fa
     let Some(proof) = p.proof.as_ref() else { return Ok(()) };
     let v = run_verifier::<G>(&prog, &p.commitments, proof, &VerifyOpts::default());
     if v.accepted() {
-        let what = ["linear constraint", "first-phase gate", "constraint over commitment", "second-phase gate"][it.kind as usize % 4];
+        let what = ["linear constraint", "first-phase gate", "constraint over commitment", "second-phase gate", "term of one long constraint", "pair of same-index variables inside one long constraint"][it.kind as usize % 6];
         return Err(Failure::new(
-            format!("C02:accepted:far-out-{}", ["constraint", "gate", "commitment", "phase2-gate"][it.kind as usize % 4]),
+            format!("C02:accepted:far-out-{}", ["constraint", "gate", "commitment", "phase2-gate", "term", "confusable-pair"][it.kind as usize % 6]),
             format!("a violated {} #{} (of {}) is accepted", what, it.at, it.total),
             json!({"scale": format!("{:?}", it)}),
         ));
     }
-    col.class(["scale:constraints", "scale:gates", "scale:commitments", "scale:phase2-gates"][it.kind as usize % 4]);
+    col.class(["scale:constraints", "scale:gates", "scale:commitments", "scale:phase2-gates", "scale:terms", "scale:confusable-pair"][it.kind as usize % 6]);
     col.nontrivial(fp_of(&(it.curve, it.kind, it.total, it.at, 77u8)));
     Ok(())
 }
@@ -610,6 +671,12 @@ pub fn run(tier: &str, seed: u64) -> i32 {
             }
             if !thorough {
                 items.push(ScaleItem { curve: c, kind: 3, total: 1100, at: 1050 });
+            }
+            for at in if thorough { vec![0usize, 4096, 65_535, 65_536, 65_999] } else { vec![0, 65_999] } {
+                items.push(ScaleItem { curve: c, kind: 4, total: 66_000, at });
+            }
+            for (total, at) in if thorough { vec![(66_000usize, 0usize), (66_000, 33_000), (66_000, 65_998), (4100, 2000), (300, 7)] } else { vec![(66_000, 65_000), (300, 7)] } {
+                items.push(ScaleItem { curve: c, kind: 5, total, at });
             }
         }
         let mut o = crate::runner::enumerate("c02/scale", &items, &|i| i.encode(), &|i, col| with_curve!(i.curve, G => scale_case::<G>(i, col)));
